@@ -375,10 +375,14 @@ def tcp_case(exe, r, run, stats, witness):
     counter = 0
     out = {}          # conn -> bytes the server wrote
 
+    sess_events = []
+
     def feed(evs):
         for e in evs:
             if e["e"] == "swrite":
                 out[e["conn"]] = out.get(e["conn"], b"") + bytes.fromhex(e["b"])
+            elif e["e"] == "event" and e["code"] in (0x4001, 0x4002):
+                sess_events.append((e["code"], e["sess"], e.get("remote")))
         return evs
 
     def notifs(c):
@@ -440,7 +444,18 @@ def tcp_case(exe, r, run, stats, witness):
         elif len(out.get(c, b"")) != st["len_at_close"]:
             run.violation("notification-after-deregistration/session-loss", wv,
                           "bytes written to the connection after the peer had closed it")
-    return w, ("tcp", nconn, sum(1 for c in conns.values() if not c["open"]))
+    # one session-new event per accepted connection, one session-deleted event per lost one
+    # (C12's clause, for stream sessions), none for a connection that is still open
+    news = [x for x in sess_events if x[0] == 0x4001]
+    dels = [x for x in sess_events if x[0] == 0x4002]
+    lost = sum(1 for c in conns.values() if not c["open"])
+    if len(news) != nconn or len(set(x[1] for x in news)) != nconn or len(dels) != lost or \
+            len(set(x[1] for x in dels)) != lost or not set(x[1] for x in dels) <= \
+            set(x[1] for x in news):
+        run.violation("session-events-do-not-match-connections/tcp", witness,
+                      "%d connections accepted, %d closed by the peer; session events "
+                      "(code, session, remote): %r" % (nconn, lost, sess_events))
+    return w, ("tcp", nconn, lost)
 
 
 def work(job):
